@@ -21,7 +21,9 @@ READ_PRIM = re.compile(
     r"ByteReader::read_\w+$)")
 SANITISE_CALL = re.compile(
     r"(::min$|::clamp$|::checked_(add|sub|mul|div)$|::saturating_(sub|add|mul)$|::try_from$|::try_into$|"
-    r"validate_\w+$|::rem_euclid$|::get$|::get_mut$|::is_power_of_two$|::leading_zeros$|::trailing_zeros$|usize::BITS)")
+    r"validate_\w+$|::rem_euclid$|::is_power_of_two$|::leading_zeros$|::trailing_zeros$|usize::BITS)")
+# (`slice.get(i)` bounds-checks the *index*; the element it returns is as untrusted as the slice — it used to be listed here and
+#  hid every value looked up in a table, e.g. a block entry's file_size)
 ORDERED = {"Lt", "Le", "Gt", "Ge"}
 CHECK_CALL = re.compile(r"(::is_empty$|::is_power_of_two$|validate\w*$|::check\w*$|bounds\w*$|::lt$|::le$|::gt$|::ge$|::cmp$|::partial_cmp$|::contains$|::checked_\w+$|::is_none$|::is_some$|::is_err$|::is_ok$|::starts_with$)")
 
@@ -295,7 +297,8 @@ class FnTaint:
                                 _same(o2) for o2 in mirg.rvalue_operands(rv) if o2[0] in ("c", "m")):
                             # `if x == 0 { refill / bail }` before `x - 1`: the only value the decrement cannot take is handled
                             return "dominating zero test on the same value (bb%d)" % i
-                        elif rv[0] in ("un", "use"):
+                        elif rv[0] in ("un", "use", "discr"):
+                            # (`discr`: the branch taken by `validator(..)?` switches on the discriminant of the Try::branch result)
                             for o2 in mirg.rvalue_operands(rv):
                                 if op_local(o2) is not None:
                                     stack.append(op_local(o2))
@@ -317,7 +320,9 @@ class FnTaint:
                                 # `if !v.field.is_empty() { v.field[0] }`: both borrows are of the same field place
                                 return "dominating check call on the same field (bb%d)" % i
                             a4, _, _ = self.du.slice_back(al_, depth=4)
-                            if rel(a4 - set(range(1, f.mir["argc"] + 1)), anc):
+                            # (parameters are left out of the loose relation because `self` relates everything; the strict relation
+                            #  only counts integer-typed values, so an integer parameter handed to a validator does count)
+                            if rel(a4 - (set() if strict else set(range(1, f.mir["argc"] + 1))), anc):
                                 return "dominating check call on a related value (bb%d)" % i
         return None
 
